@@ -22,41 +22,45 @@ def rule_W8(ctx):
               if key(strip_casts(c["args"][1])) == ln]
     if not direct:
         ctx.ok("lbuf_wr", "no direct line writes (everything goes through the batch)")
-    br = cfg.branch(head)
+    from ..bounds import path_states
+
+    def fill_inline(call):
+        g = prog.resolve(f, call["fn"]) if call.get("fn") else None
+        if g is None or g.file != f.file or g is f:
+            return None
+        for a_ in call["args"]:
+            a_ = strip_casts(a_)
+            if a_["k"] == "un" and a_["op"] == "&" and a_["e"]["k"] == "ref" and a_["e"]["name"] == fill:
+                return g
+        return None
+
+    def fill_hyps(subst):
+        return [subst.get(fill) or Lin({fill: 1})]
     for d in direct:
+        try:
+            sts = path_states(f, d["id"], header_hyps=fill_hyps, inline=fill_inline, max_paths=4000)
+        except OverflowError:
+            raise AnalysisBroken("lbuf_wr: too many paths")
         bad = None
-        n_p = 0
-        for items, end in enum_paths(cfg, br[1], {head}):
-            ids = [x[1] for x in items if x[0] == "ev"]
-            if d["id"] not in ids:
-                continue
-            n_p += 1
-            hyps = [Lin({fill: 1}), Lin({nlkey: 1})]
-            cur = Lin({fill: 1})
-            for it in items:
-                if it[0] == "blk":
-                    continue
-                if it[0] == "ev":
-                    if it[1] == d["id"]:
-                        break
-                    n = f.nodes.get(it[1])
-                    if n and n["k"] == "bin" and n["l"]["k"] == "ref" and n["l"]["name"] == fill:
-                        if n["op"] == "=":
-                            cur = linearize(n["r"]) or Lin({"?": 1})
-                        elif n["op"] == "+=":
-                            cur = cur + (linearize(n["r"]) or Lin({"?": 1}))
-                else:
-                    hyps += cmp_constraints(f.nodes[it[1]], it[2], {fill: cur})
+        und = False
+        for subst, hyps, items in sts:
+            cur = subst.get(fill) or Lin({fill: 1})
             if prove_le(cur, Lin(k=0), hyps) != PROVEN:
-                bad = items
+                if "__havoc__" in subst or "__callhavoc__" in subst:
+                    und = True
+                else:
+                    bad = items
         if bad is not None:
             desc = ", ".join("%s=%s" % (key(f.nodes[x[1]])[:30], x[2]) for x in bad if x[0] == "br")
             ctx.violation("lbuf_wr", "a line written directly finds the batch empty",
                           "a path writes a long line straight to the file while earlier, shorter lines "
                           "may still sit in the batch (fill == 0 not implied): %s -- the file gets the "
                           "lines out of order" % desc, f.loc(d))
-        elif n_p:
-            ctx.ok("lbuf_wr", "direct write only with an empty batch (%d paths)" % n_p, loc=f.loc(d))
+        elif und:
+            ctx.inconclusive("lbuf_wr", "a line written directly finds the batch empty",
+                             "a helper on the way is not summarised", f.loc(d))
+        elif sts:
+            ctx.ok("lbuf_wr", "direct write only with an empty batch (%d paths)" % len(sts), loc=f.loc(d))
     # the batch is appended at its fill position
     for c in f.calls("memcpy"):
         if mentions(c["args"][0], batch):
@@ -77,7 +81,7 @@ def rule_W8(ctx):
             par = g.nodes.get(g.parent.get(par["id"]))
         others = [n for n, lv, op, rhs in stores(g.body)
                   if lv["k"] in ("ref", "var") and lv.get("name") == rname and (par is None or n["id"] != par["id"])
-                  and op != "init"]
+                  and op != "init" and not (rhs is not None and is_call(strip_casts(rhs), "read"))]
         if g is not top and rtop is not None:
             tpar = top.nodes.get(top.parent.get(topnode["id"]))
             while tpar and tpar["k"] == "cast":
